@@ -6,6 +6,16 @@ ROOT = os.path.dirname(os.path.dirname(os.path.abspath(__file__)))
 
 # id -> (level category, technique, level text, level note, design ref)
 CHECKS = {
+    "C12": ("exploration",
+            "stateful property-based testing (proptest) of BackendMap/BackendList against an eligibility model; set-membership oracle for selections, exact oracle for counters and retirement",
+            "Generated histories (add/remove/re-add, in-place updates, health probes with thresholds, retry failures/successes, forced down / back-off / expiry through the verif hooks, policy changes over the six policies, open/close, keyed and sticky selections) on the real BackendMap; every selection must land in the admissible set (eligible primaries, else eligible backups, else the documented fail-open set), a valid sticky cookie wins iff its backend qualifies, HRW and Maglev keep one key on one backend while the eligible set is unchanged, connection/request counts equal the model after every op and return to zero, removed backends drain then retire. Bounded exploration.",
+            "Selection is driven through the non-connecting entry points; Random/PowerOfTwo are judged by membership only; back-off windows are driven by the verif hooks (no sleeping); the worker's connect path and metrics gauges are not in the loop.",
+            "DESIGN.md §4 C12"),
+    "C17": ("exploration",
+            "stateful property-based testing (proptest) of CertificateResolver against a cover model built from the fixture manifest",
+            "Generated histories of add / remove / replace (idempotent, failing, unparsable old fingerprint, overriding names and expiry) over a bank of certificates with overlapping exact and wildcard names; after every operation 54 probe names are looked up and the served fingerprint must be loaded, cover the name (exact over wildcard, longest-lived among equals), be the default only when nothing covers it, and agree with names_for_sni and the store. Bounded exploration of the resolver; real TLS handshakes, the replace window under concurrent handshakes and strict SNI binding (421) are wire-lab checks not built yet.",
+            "The resolver's domain_lookup is called the way MutexCertificateResolver::resolve calls it (rustls ClientHello cannot be constructed); certificate names and expiry come from the fixture manifest, not from parsing.",
+            "DESIGN.md §4 C17"),
     "C11": ("exploration",
             "stateful property-based testing (proptest) of Channel over a real unix socket pair against a two-queue model with an independent frame encoder/decoder",
             "Generated op sequences (peer writes of arbitrary sizes of a byte stream made of valid frames of generated sizes and injected malformed ones, channel readable/read_message/write_message/writable, peer reads) on a Channel with generated small buffer and maximum sizes and small socket buffers, in non-blocking mode (three owners: arbitrary caller, a mirror of the worker's read loop, the main process's extract_messages) and blocking mode; after every op the buffers are compared with the model, every message must be delivered exactly once, intact, in order, malformed frames yield errors without wedging the channel where the frame boundary is known, and capacities never exceed the ceiling. Bounded exploration.",
@@ -28,9 +38,9 @@ CHECKS = {
             "DESIGN.md §4 C10 (a)"),
     "C18": ("exploration",
             "property-based testing (proptest): PROXY-v2 codec round trip against an independent byte-level reading of the specification; ExpectProxyProtocol driven over an in-memory socket at generated split points",
-            "Encoder output is read back by a hand-written specification reader and by the parser; arbitrary/near-miss byte strings must be accepted only when they hold a complete v2 header, consuming exactly 16 + declared length; ExpectProxyProtocol<FakeSocket> receives hand-built headers (all families, LOCAL/PROXY, TLV tails, malformed flavours) plus payload in generated read sizes with would-blocks and must upgrade exactly when the header is complete, with its addresses, and close on malformed input. The byte-exact relay and header uniqueness toward the backend are wire-lab checks, not built yet.",
-            "In-process tiers only: the TCP pipe, half-close ordering and send/relay modes are not exercised yet.",
-            "DESIGN.md §4 C18 (a,b)"),
+            "Encoder output is read back by a hand-written specification reader and by the parser; arbitrary/near-miss byte strings must be accepted only when they hold a complete v2 header, consuming exactly 16 + declared length; ExpectProxyProtocol<FakeSocket> receives hand-built headers (all families, LOCAL/PROXY, TLV tails, malformed flavours) plus payload in generated read sizes with would-blocks and must upgrade exactly when the header is complete, with its addresses, and close on malformed input. A wire-lab sub-check runs one TCP session through a live worker per scenario (plain / send / expect / relay PROXY modes, generated payloads up to 256 KiB (thorough 4 MiB) each way, four generated I/O scripts with dribbles, pauses, read stalls and small socket buffers, hand-built incoming headers with TLV tails or malformed): both byte streams exact and in order, end-of-stream only after all bytes, exactly one well-formed header with the right addresses toward the backend; failures are re-run on a fresh worker and reported only when they reproduce.",
+            "Kernel segmentation and epoll order are shaped, not owned; closing is acknowledged (each side half-closes once everything arrived) because independent half-closes hit a known finding; the WebSocket-upgrade relay is not exercised; splice feature off.",
+            "DESIGN.md §4 C18"),
     "C20": ("exploration",
             "property-based testing (proptest): abstract configuration -> own TOML printer -> real loader -> fresh ConfigState, compared with expectations computed from the abstract configuration; constraint-violating neighbours must be rejected",
             "Generated abstract configurations (listeners of four protocols, http/tcp clusters, frontends with every path kind/position/method/tags/certificates, backends, sizes crossing 255/256/512 messages) are printed to TOML, loaded by Config::load_from_path, turned into messages and dispatched on a fresh instance: every message accepted, ids unique, objects equal the declared ones with documented defaults, reload idempotent with empty diff; seven kinds of invalid neighbour must be rejected at load time. Bounded exploration.",
